@@ -331,8 +331,9 @@ PROPERTY_META = {
                 "errno at every call (all subsets of failing calls at once): failure leaves handle NOT_STARTED, no child, no "
                 "descriptor; the returned error is the first failed call's errno or the child's report; success means a live child "
                 "with positive pid whose fate is 'executed'. The child reports the error that stopped it (checked in the _exit contract).",
-        "note": OS_NOTE + "Parent/child coupling is rely/guarantee over the assumed error-pipe law. Known finding D10 (EINTR on the "
-                "error-pipe read / reaping waitpid) is excluded and listed.",
+        "note": OS_NOTE + "Parent/child coupling is rely/guarantee over the assumed error-pipe law. EINTR on the error-pipe read and the "
+                "reaping waitpid is retried by the library; the model interrupts at most twice in a row (environment bound, "
+                "retry loops fully unrolled with unwinding assertions).",
         "design_ref": "§3 C04"},
     "C05": {"claimed": True, "level": "proof",
         "text": "Descriptor ledger (bit masks) in the OS layer: close() asserts 'open and opened by the library' at every call reached "
